@@ -26,7 +26,7 @@ RealInsideWhenRejectingSymlinks == (ans # "pending" /\ req.reject) => ans \in In
 Contained ==
   (ans \in OutsideContents) =>
      /\ ~req.reject /\ req.prefix = "rel"
-     /\ \E i \in 1..Len(req.cs) : req.cs[i] \in {"link_out.txt", "dlink_out"}
+     /\ \E i \in 1..Len(req.cs) : req.cs[i] \in {"link_out.txt", "dlink_out", "link_x.txt", "dlink_x"}
 OnlyNotFound == ans \in {"pending", NotFound} \cup InsideContents \cup OutsideContents
 UpwardsNeverResolves == (ans # "pending" /\ \E i \in 1..Len(req.cs) : req.cs[i] = "..") => ans = NotFound
 (* an absolute name that points INTO the search path may also be answered with that inside file: the statement only *)
